@@ -33,6 +33,9 @@ def run_verus(pid, unit, tier, seed, keep=False):
         except annotate.AnchorLost as e:
             out["undecided"].append({"what": "anchor lost while attaching contracts: %s" % e})
             return out
+        for l in meta.get("lost", []):
+            if pid in l["props"]:
+                out["undecided"].append({"what": "contract of %s could not be attached to the current source (%s) - its obligations are undecided" % (l["fn"], l["why"])})
         scope_fns = sorted(fn for fn, props in meta["fn_props"].items() if pid in props)
         scope_obl = [o for o in meta["obligations"] if pid in o["props"]]
         files = sorted(rel for rel in meta["files"] if any(fn.startswith(os.path.basename(rel) + "::") for fn in scope_fns))
